@@ -41,8 +41,9 @@ def gen_prog(rng):
     return prog
 
 
-def run_real(prog, witness):
-    """Returns (recorded graph, done flags, error)."""
+def run_real(prog, witness, inner_shutdown=None):
+    """Returns (recorded graph, done flags, error).  inner_shutdown: None | True | False = an explicit exe.shutdown(wait=...) inside the
+    with-block after the last submit (legal, repeatable: the graph drawn on leaving the block is the same)."""
     import executorlib
     import networkx
 
@@ -69,6 +70,8 @@ def run_real(prog, witness):
                 f = exe.submit(mk(c["fn"]), *[conv(a) for a in c["args"]], **{k: conv(a) for k, a in c["kwargs"]})
                 futs.append(f)
                 done.append(bool(f.done()))
+            if inner_shutdown is not None:
+                exe.shutdown(wait=inner_shutdown)
     except Exception as e:  # noqa
         return None, done, "%s: %s" % (type(e).__name__, str(e)[:100])
     if len(networkx.RECORDED) != 1:
@@ -89,8 +92,11 @@ def to_model(prog):
 
 def body(ctx: Ctx):
     m = ctx.model
+    replay_inner = None
     if ctx.replay_file:
-        progs = [json.load(open(ctx.replay_file))["prog"]]
+        rp = json.load(open(ctx.replay_file))
+        progs = [rp["prog"]]
+        replay_inner = rp.get("explicit_shutdown_in_block")
     else:
         n = 300 if ctx.tier == "quick" else 3000
         progs = [
@@ -103,8 +109,14 @@ def body(ctx: Ctx):
     open(witness, "w").close()
     diffs, bad = [], []
     try:
-        for p, mo in zip(progs, model):
-            g, done, err = run_real(p, witness)
+        for k, (p, mo) in enumerate(zip(progs, model)):
+            # every fifth program: an explicit shutdown (wait=True / False alternating) inside the with-block before it is left
+            inner = None if (k % 5 != 4 or ctx.replay_file) else bool(k % 2)
+            if ctx.replay_file and replay_inner is not None:
+                inner = replay_inner
+            if inner is not None:
+                ctx.count("prog.explicit_shutdown_in_block")
+            g, done, err = run_real(p, witness, inner_shutdown=inner)
             rep = any(p[i] == p[j] for i in range(len(p)) for j in range(i))
             ctx.case({"prog": p}, nontrivial=len(p) >= 2)
             ctx.count("prog.calls.%d" % len(p))
@@ -113,12 +125,12 @@ def body(ctx: Ctx):
             if any("fs" in a for c in p for a in c["args"] + [x[1] for x in c["kwargs"]]):
                 ctx.count("prog.list_of_futures")
             if err or not all(done):
-                bad.append({"prog": p, "error": err, "done_at_submit": done})
+                bad.append({"prog": p, "error": err, "done_at_submit": done, "explicit_shutdown_in_block": inner})
                 continue
             nodes = [{"id": n["id"], "name": n["label"], "shape": n["shape"]} for n in g["nodes"]]
             edges = [{"start": e["start"], "end": e["end"], "label": e["label"]} for e in g["edges"]]
             if nodes != mo["nodes"] or edges != mo["edges"]:
-                diffs.append({"prog": p, "impl": {"nodes": nodes, "edges": edges}, "model": mo})
+                diffs.append({"prog": p, "explicit_shutdown_in_block": inner, "impl": {"nodes": nodes, "edges": edges}, "model": mo})
         executed = open(witness).read().splitlines()
         procs = [(pid, cmd) for pid, cmd, st in descendants() if "/backend/" in cmd and "executorlib" in cmd]
     finally:
